@@ -210,8 +210,9 @@ func GetNode(children []*Node, path string) (*Node, bool) {
 			return node, true
 		}
 		if len(node.Children) == 0 {
-			// a file cannot contain the rest of the path
-			return nil, false
+			// a file cannot contain the rest of the path; a directory of the same name may
+			// follow it (a file and a directory of one name can both be staged and committed)
+			continue
 		}
 		return GetNode(node.Children, pathSplit[1])
 	}
